@@ -32,6 +32,55 @@ CLAIMS = {
              'concurrent with other calls; user key/value operations do not touch the container.',
         technique='lockset / access-conflict analysis over all AST paths with helpers inlined',
         design='6.C07'),
+    'C02': dict(
+        level='other',
+        text='Necessary-condition conformance, decided on every path and loop iteration of every entry point of all ten containers: '
+             'R-BALANCE (element counter, index, free/used partition and each auxiliary structure change by the same amount), '
+             'R-BOUND (interval argument from 0<=size<=capacity and the path tests: the counter stays in range after every change; '
+             'the eviction trigger is exactly size>=capacity), R-OBSERVERS (size/empty/capacity return the counter / counter==0 / '
+             'the size of storage only the constructor sizes, with the capacity argument), R-PURGE-FIRST (ut_map/ut_set). '
+             'It decides these structural clauses, not the behaviour: the induction from them to the statement is on paper.',
+        note='Assumes capacity>=1 and the representation invariant at entry (inductive hypothesis); trusted: clang AST, stdmodel.py, model.py.',
+        technique='abstract-effect balance + interval (zone) analysis over enumerated AST paths', design='6.C02'),
+    'C03': dict(
+        level='other',
+        text='R-REMOVE-LICENSE on every path of every entry point: each index removal is licensed by the path valuation (erase of the found '
+             'key; lookup of an expired key; clean/purge guarded by the removed node being expired; exactly one policy victim, before the '
+             'bind, on a new-key insert whose path tested size>=capacity, leaving the size unchanged); every other path has none. '
+             'Decides the licence structure; which resident the policy names is C10-C16.',
+        note='Assumes RI at entry; trusted: clang AST, stdmodel.py, model.py.',
+        technique='abstract-effect licensing (who-may-remove) over enumerated AST paths', design='6.C03'),
+    'C04': dict(
+        level='other',
+        text='R-LIVE-GUARD: every tlru/utlru lookup path that yields a value is dominated by the strict test now < expire_time of the found '
+             'entry with the call\'s own clock sample (comparison normalised to a linear form, so < vs <= at the boundary is decided). '
+             'ut_map/ut_set: purge-first, purge shape (from the head, inclusive test per node, stop at first live, erase the visited prefix) '
+             'and the ORD witness (append / move-to-back only, deadline = own clock sample + ttl no method changes). Structural clauses only.',
+        note='Assumes steady_clock monotone and RI at entry.',
+        technique='dominating-guard analysis with linear normal form of time comparisons; loop-shape and ordering-witness checks', design='6.C04'),
+    'C05': dict(
+        level='other',
+        text='R-DEADLINE-PROV (stored deadline and ttl key are now + d: now the single clock sample of the call, d the ttl in force - call '
+             'parameter / element ttl for tlru, configured field otherwise), R-WRITE-RESTARTS-TTL (every UPDATE and BIND row writes the '
+             'deadline of the written entry once), R-WHO-WRITES-DEADLINE, R-CFG-ONLY (update_ttl only stores the duration), keyed '
+             're-filing consistent with the stored deadline. Structural clauses only; early removal is excluded by C03.',
+        note='Assumes no overflow of now+ttl (excluded by the property).',
+        technique='value-provenance (term inspection with store forwarding) and who-may-write analysis over AST paths', design='6.C05'),
+    'C16': dict(
+        level='other',
+        text='ORD witness (A): the ttl structure is a std::multimap keyed by time_point with the default order, every write files the slot '
+             'under exactly the term stored as its deadline and refreshes the stored position, nothing else reorders it; R-PRUNE-TABLE: on '
+             'every full new-key insert path the victim is the ttl head iff now >= deadline(head) (inclusive, own clock sample), else the '
+             'LRU back. Structural clauses only.',
+        note='Trusted: [associative.reqmts] (begin() of a less-ordered multimap is minimal).',
+        technique='ordering-witness (type + keyed-insertion discipline) and decision-table check over AST paths', design='6.C16'),
+    'C17': dict(
+        level='other',
+        text='R-CLEAN-LOOP (a loop that continues exactly when non-empty and the ttl head is expired (inclusive), removes exactly that head, '
+             'and can only stop when empty or the head is live), ORD witness, R-CLEAN-TALLY (returned value = number of removals), and for '
+             'ut_map/ut_set purge-first / purge-shape on every insert, erase, lookup and clean. Structural clauses only.',
+        note='Assumes steady_clock monotone, RI at entry.',
+        technique='loop-shape analysis (guard, per-iteration effect, exit conditions) + ordering witness over AST paths', design='6.C17'),
     'C09': dict(
         level='proof',
         text='Finite decision table, decided exhaustively: the allow enumerators and insert_allowed/update_allowed are '
